@@ -222,6 +222,9 @@ pub fn run(seed: u64, tier: &str, out: &str) {
             emit(&ev);
         }
     }
+    // instances that must not take part in the permuted / concurrent phases (a blocked decode would hold
+    // up every other thread for its whole time-out): executed in the reference run and once more here
+    let seq_only: Vec<bool> = refs.iter().map(|o| o["op"] == "pipe").collect();
     // (2) sequential, reversed order (history independence), thread id 0
     let mut seq0 = 0;
     for i in (0..n).rev() {
@@ -238,6 +241,9 @@ pub fn run(seed: u64, tier: &str, out: &str) {
             order.swap(i, j);
         }
         for i in order {
+            if seq_only[i] {
+                continue;
+            }
             seq0 += 1;
             emit(&json!({"op": "ret", "t": 0, "seq": seq0, "inst": i, "val": insts[i](), "panic": false, "cls": "sequential-permuted"}));
         }
@@ -249,7 +255,7 @@ pub fn run(seed: u64, tier: &str, out: &str) {
         let key = |op: &Value| format!("{}|{}|{}|{}|{}|{}", op["op"], op["g"], op["fn"], op["form"], op["f"], op["x"]);
         let mut groups: Vec<(String, Vec<usize>)> = vec![];
         for (i, op) in refs.iter().enumerate() {
-            if op.get("xabort").is_some() {
+            if op.get("xabort").is_some() || op["op"] == "pipe" {
                 continue;
             }
             let k = key(op);
@@ -275,6 +281,7 @@ pub fn run(seed: u64, tier: &str, out: &str) {
         for t in 0..threads {
             let insts = &insts;
             let emit = &emit;
+            let seq_only = &seq_only;
             let barrier = &barrier;
             let sync_order = &sync_order;
             let sd = seeds[t];
@@ -288,6 +295,9 @@ pub fn run(seed: u64, tier: &str, out: &str) {
                         order.swap(i, j);
                     }
                     for i in order {
+                        if seq_only[i] {
+                            continue;
+                        }
                         let val = match std::panic::catch_unwind(std::panic::AssertUnwindSafe(|| insts[i]())) {
                             Ok(v) => (v, false),
                             Err(_) => (json!("panic"), true),
